@@ -17,6 +17,7 @@ type c06Job struct {
 	Files map[string]string // relative path -> content
 	Input map[string]any
 	Runs  []c06Run
+	Quiet bool // run two of three repetitions without the schedule-perturbation hook (it slows the loader's converters down)
 }
 
 type c06Run struct {
@@ -129,6 +130,34 @@ func runC06(c *Ctx) {
 				Files: map[string]string{"stmt.csv": csv.String()}, Input: map[string]any{"statement": csv.String()}})
 		}
 	}
+	// journals spread over included files whose converter goroutines all meet the same not-yet-registered commodities and
+	// accounts at the same moment (goroutine scheduling decides who registers them): seeded change C06-c lost the re-check
+	// under the registry's write lock, so that the report showed a commodity twice in some runs
+	for i := 0; i < c.N(6, 40); i++ {
+		if !c.Want("shared", i) {
+			continue
+		}
+		r := c.Rng("shared", i)
+		nf, nc := r.Range(3, 12), r.Range(80, 400)
+		files := map[string]string{}
+		var root strings.Builder
+		root.WriteString("2020-01-01 open Equity:A1\n2020-01-01 open Assets:A0\n\n")
+		for f := 0; f < nf; f++ {
+			var b strings.Builder
+			for k := 0; k < nc; k++ {
+				fmt.Fprintf(&b, "2020-01-%02d \"t\"\nEquity:A1 Assets:A0 %d K%d\n\n", 2+f, f+1, k)
+			}
+			files[fmt.Sprintf("f%d.knut", f)] = b.String()
+			fmt.Fprintf(&root, "include \"f%d.knut\"\n", f)
+		}
+		files["root.knut"] = root.String()
+		in := map[string]any{"layout": fmt.Sprintf("root.knut opens Equity:A1 and Assets:A0 and includes f0..f%d; file f books `Equity:A1 Assets:A0 <f+1> K<k>` for k < %d on 2020-01-<2+f>", nf-1, nc)}
+		kind, args := "balance-shared-includes", []string{"balance", "--color=false", "@root.knut"}
+		if i%3 == 1 {
+			kind, args = "print-shared-includes", []string{"print", "@root.knut"}
+		}
+		add(&c06Job{Idx: 100000 + i, Kind: kind, Args: args, Files: files, Input: in, Quiet: true})
+	}
 	gomax := []string{"1", "2", "16"}
 	parallelFor(len(jobs), 8, func(q int) {
 		jb := jobs[q]
@@ -146,6 +175,12 @@ func runC06(c *Ctx) {
 		}
 		for rep := 0; rep < reps; rep++ {
 			env := []string{fmt.Sprintf("KNUT_VERIF_SEED=%d", rep*7919+jb.Idx+1), "GOMAXPROCS=" + gomax[rep%3]}
+			if jb.Quiet {
+				env = []string{"GOMAXPROCS=16"}
+				if rep%3 == 2 {
+					env = append(env, fmt.Sprintf("KNUT_VERIF_SEED=%d", rep*7919+jb.Idx+1))
+				}
+			}
 			code, so, se := runKnut(c.KnutBin, 30*time.Second, env, args...)
 			jb.Runs = append(jb.Runs, c06Run{Env: env, Code: code, Stdout: so, Stderr: se})
 		}
@@ -165,8 +200,14 @@ func runC06(c *Ctx) {
 			}
 		}
 		in := map[string]any{"kind": jb.Kind, "args": strings.Join(jb.Args, " "), "files": jb.Files, "runs": len(jb.Runs)}
-		c.Monitor("repeat", jb.Idx, "same_output_every_run", in, same, detail)
-		c.Monitor("repeat", jb.Idx, "no_panic", in, !strings.Contains(r0.Stderr, "panic:"), clip(r0.Stderr))
+		stream, idx := "repeat", jb.Idx
+		if jb.Idx >= 100000 {
+			stream, idx = "shared", jb.Idx-100000
+			delete(in, "files") // regenerated from the layout description (hundreds of kilobytes)
+			in["layout"] = jb.Input["layout"]
+		}
+		c.Monitor(stream, idx, "same_output_every_run", in, same, detail)
+		c.Monitor(stream, idx, "no_panic", in, !strings.Contains(r0.Stderr, "panic:"), clip(r0.Stderr))
 		c.Class(fmt.Sprintf("c06/%s/exit%d/len%s", jb.Kind, r0.Code, bucket(len(r0.Stdout)/200)))
 		if jb.Idx < 3 {
 			c.Sample(map[string]any{"kind": jb.Kind, "args": strings.Join(jb.Args, " "), "exit": r0.Code, "stdout": clip(r0.Stdout)[:min(len(r0.Stdout), 600)]})
